@@ -55,6 +55,24 @@ Theorem C01_no_use_after_free : forall s e k x,
 Proof. exact no_use_after_free. Qed.
 Print Assumptions C01_no_use_after_free.
 
+(* zero-copy sends (and every other operation): the buffer is handed back only
+   by take_result, which no accepted history performs while the kernel still
+   owns the operation, i.e. before the final (release-notification) completion *)
+Theorem C01_buffer_back_only_after_final : forall u es s k x,
+  steps (init u) es = Some s ->
+  nth_error (keys s) k = Some x -> in_kernel x = true ->
+  step s (EUserPop k true) = None /\ step s (EUserPushReady k) = None.
+Proof. exact pop_while_in_kernel_rejected. Qed.
+Print Assumptions C01_buffer_back_only_after_final.
+
+Example C01_zero_copy_example :
+  steps (init true) [EKeyNew 0; ESubmit 0; ECqeMore 0; EUserPop 0 true] = None /\
+  exists s, steps (init true) [EKeyNew 0; ESubmit 0; ECqeMore 0; EUserPop 0 false;
+                               ECqeFinal 0; ESetResult 0; EUserPop 0 true; EKeyFree 0] = Some s
+            /\ quiescent s = true.
+Proof. split; [vm_compute; reflexivity|]. eexists. split; vm_compute; reflexivity. Qed.
+Print Assumptions C01_zero_copy_example.
+
 (* non-vacuity: a history with an operation in flight while its future is
    dropped, completed by the kernel later, is a run of the model; freeing it
    early is not *)
